@@ -172,7 +172,8 @@ AccrueF(st, t, accrue) ==
 -----------------------------------------------------------------------------
 \* allocation.py / rebalancing.py : from a target to a list of trades
 \*
-\* A request is  [alloc : [SUBSET C -> Rat], measure : {"weight", "lots"}, thr : Rat, fractional : BOOLEAN]
+\* A request is  [alloc : [SUBSET C -> Rat], measure : {"weight", "lots"}, thr : Rat, fractional : BOOLEAN,
+\*                 absolute : BOOLEAN]   (absolute = FALSE: alloc is a change from the current holdings)
 \* alloc holds non-zero targets only (the code drops zero entries and the cash contract).
 
 Targeted(req, c) == c \in DOMAIN req.alloc /\ ~IsZero(req.alloc[c])
@@ -188,9 +189,9 @@ TargetLots(st, req, nlv, c) ==
 \* result: [out, trades : [SUBSET C -> Rat]]
 MakeTradesF(st, req, nlv) ==
     LET tl(c)  == TargetLots(st, req, nlv, c)
-        cand   == {c \in C : Targeted(req, c) \/ ~IsZero(st.pos[c])}
+        cand   == {c \in C : Targeted(req, c) \/ (req.absolute /\ ~IsZero(st.pos[c]))}
         bad    == {c \in cand : tl(c) = NaN}
-        imb(c) == Sub(tl(c), st.pos[c])
+        imb(c) == IF req.absolute THEN Sub(tl(c), st.pos[c]) ELSE tl(c)
         imbal  == {c \in cand \ bad : ~IsZero(imb(c))}
         \* imbalance weight: multiplier * quantity * acquisition price / NLV
         wprice(c) == AcqPrice(st, c, Sign(imb(c)))
